@@ -3,7 +3,7 @@ import json, os, re
 
 SPEC_DIR = os.path.join(os.path.dirname(os.path.abspath(__file__)), '..', 'spec')
 
-OP_FIELDS = ['k', 'o', 'g', 'aw', 'body', 'panic', 'block', 'f', 'then', 'n', 't', 'par']
+OP_FIELDS = ['k', 'o', 'g', 'aw', 'body', 'panic', 'block', 'f', 'then', 'n', 't', 'par', 'p']
 
 
 def flatten(scn):
@@ -13,7 +13,7 @@ def flatten(scn):
     def walk(op, thread, parent):
         rec = {'k': op['k'], 'o': op.get('o', 0), 'g': op.get('g', 0), 'aw': op.get('aw', []), 'body': [b['id'] for b in op.get('body', [])],
                'panic': bool(op.get('panic', False)), 'block': op.get('block', 0), 'f': op.get('f', 0), 'then': op.get('then', 'keep'),
-               'n': op.get('n', 0), 't': thread, 'par': parent}
+               'n': op.get('n', 0), 't': thread, 'par': parent, 'p': op.get('p', 0)}
         if rec['o'] == 0 and rec['f'] != 0 and rec['f'] in ops:
             rec['o'] = ops[rec['f']]['o']
         assert op['id'] not in ops, 'duplicate op id %s' % op['id']
@@ -101,6 +101,7 @@ def mc_constants(scn, fixes):
         'MC_NObj == %d' % scn['objects'],
         'MC_NGate == %d' % scn.get('gates', 0),
         'MC_Pool0 == %d' % scn['pool'],
+        'MC_NPipe == %d' % scn.get('pipes', 0),
         'MC_MaxDW == %d' % ndw,
         'MC_Single == %s' % ('TRUE' if len(threads) == 1 else 'FALSE'),
     ]
@@ -117,6 +118,7 @@ CONST_CFG = '''CONSTANTS
   NObj <- MC_NObj
   NGate <- MC_NGate
   Pool0 <- MC_Pool0
+  NPipe <- MC_NPipe
   MaxDW <- MC_MaxDW
   FixD1 <- MC_FixD1
   FixD2 <- MC_FixD2
